@@ -16,7 +16,11 @@
  *   item to every successor (unless a try_get changed the front meanwhile); graph wait count returns to 0. */
 #include "w.h"
 #include "vp.h"
-enum { T = 1, G, R, L, C, X };
+enum { T = 1, G, R, L, C, X, A };   /* A (only with -DBASE=7): a second push successor registers itself now */
+#ifndef BASE
+#define BASE 6
+#endif
+static unsigned nsucc;   /* successors registered so far */
 #ifndef NSUCC
 #define NSUCC 1
 #endif
@@ -46,7 +50,7 @@ static void handed_out(int v, const char* who) {
   remove_at(k); front_changed();
 }
 u32 vp_sink(u32 id, u32 v) {
-  VP_ASSERT(id < NSUCC, "offer to an unknown successor");
+  VP_ASSERT(id < nsucc, "offer to an unknown successor");
   int k = find((int)v);
   VP_ASSERT(n > 0 && k >= 0, "offered a message that is not buffered");
   VP_ASSERT(!reserved, "message offered to a successor while the node holds a reservation");
@@ -61,12 +65,12 @@ u32 vp_sink(u32 id, u32 v) {
   return 0;
 }
 static void run_one(void) { if (bag_n) { void* t = bag[0]; for (unsigned i = 0; i + 1 < BAGMAX; i++) bag[i] = bag[i + 1]; bag_n--; void* b = vp_run_task(t); VP_ASSERT(b == 0, "forwarder task returned a bypass task (unexpected for these successors)"); } }
-static int opat(unsigned k, int s) { for (int i = 0; i < s; i++) k /= 6; return (int)(k % 6) + 1; }
+static int opat(unsigned k, int s) { for (int i = 0; i < s; i++) k /= BASE; return (int)(k % BASE) + 1; }
 static unsigned nrun;
 static void run(unsigned k, unsigned accpat) {
   n = 0; reserved = 0; res_idx = 0; res_val = 0; nput = 0; noffer = 0; front_rejects = 0; waive = 0; acc_bits = accpat;
   fg_reset();
-  vp_init(NSUCC);
+  vp_init(NSUCC); nsucc = NSUCC;
   for (int s = 0; s < LEN; s++) {
     int op = s == 0 ? T : opat(k, s - 1);
     int out = (int)vp_nd(), out0 = out;
@@ -94,6 +98,7 @@ static void run(unsigned k, unsigned accpat) {
     else if (op == C) { if (!reserved) continue; vp_consume(); int k2 = find(res_val);
       VP_ASSERT(k2 == res_idx && k2 >= 0, "reserved message vanished before consume"); remove_at(res_idx); reserved = 0; front_changed(); }
     else if (op == X) { if (!bag_n) continue; run_one(); }
+    else if (op == A) { if (nsucc >= 2) continue; vp_add_succ(nsucc); nsucc++; }
     VP_ASSERT((vp_reserved() != 0) == (reserved != 0), "node reservation flag differs from the abstract one");
 #if KIND == 2   /* the priority queue takes the reserved item out of the heap and keeps it aside */
     VP_ASSERT(vp_tail() - vp_head() == n - (reserved ? 1 : 0), "node size differs from the abstract buffer");
@@ -107,7 +112,7 @@ static void run(unsigned k, unsigned accpat) {
   VP_ASSERT(vp_fwd_busy() == 0, "forwarder_busy left set with no forwarder task alive (node would never forward again)");
   VP_ASSERT(vp_graph_refs() == 0, "graph wait count not back to 0 although no task is alive");
   VP_ASSERT(n_alloc == n_free, "a finished task was not deallocated / deallocated twice");
-  if (n > 0 && !reserved && !waive && NSUCC > 0) VP_ASSERT(front_rejects == (1u << NSUCC) - 1, "buffered front message was never offered to some successor (stuck message)");
+  if (n > 0 && !reserved && !waive && nsucc > 0) VP_ASSERT(front_rejects == (1u << nsucc) - 1, "buffered front message was never offered to some successor (stuck message)");
   if (reserved) { vp_release(); reserved = 0; acc_bits = 0; for (int i = 0; i < BAGRUNS; i++) run_one(); }
   /* drain by try_get: exactly the remaining messages come out */
   for (unsigned i = 0; i < MAXM; i++) { int out = 0; unsigned r = vp_get(&out);
